@@ -92,7 +92,8 @@ TruncateOK(s, k, r) == IF k >= 0 THEN r = RStr(Take(s, k)) ELSE Loose(s, r)
 \* ---- padding ------------------------------------------------------------------------------------
 \* "Left-pads first argument to at most the specified length ... using specified pad value":
 \* leftpad("abcdefg", 10, "XY") gives "XYabcdefg" -- as many whole copies of the pad as fit; lengths in characters
-PadCount(k, ls, lp) == IF k > ls THEN (k - ls) \div lp ELSE 0
+\* (an EMPTY pad can fill nothing: no copy of it "fits"; the call returns its first argument, or an error)
+PadCount(k, ls, lp) == IF k > ls /\ lp > 0 THEN (k - ls) \div lp ELSE 0
 LeftPad(s, k, p)  == Rep(p, PadCount(k, Len(s), Len(p))) \o s
 RightPad(s, k, p) == s \o Rep(p, PadCount(k, Len(s), Len(p)))
 
@@ -188,8 +189,8 @@ Allowed(c, r) ==
     [] c.f = "substr0"     -> Substr0OK(c.s, c.i, c.j, r)
     [] c.f = "substr"      -> Substr0OK(c.s, c.i, c.j, r)                \* "substr is an alias for substr0"
     [] c.f = "truncate"    -> TruncateOK(c.s, c.i, r)
-    [] c.f = "leftpad"     -> r = RStr(LeftPad(c.s, c.i, c.t))
-    [] c.f = "rightpad"    -> r = RStr(RightPad(c.s, c.i, c.t))
+    [] c.f = "leftpad"     -> r = RStr(LeftPad(c.s, c.i, c.t)) \/ (c.t = <<>> /\ r.k = "error")
+    [] c.f = "rightpad"    -> r = RStr(RightPad(c.s, c.i, c.t)) \/ (c.t = <<>> /\ r.k = "error")
     [] c.f = "dot"         -> r = RStr(c.s \o c.t)
     [] c.f = "ssub"        -> r = RStr(Ssub(c.s, c.t, c.u))
     [] c.f = "gssub"       -> IsStr(r) /\ r.s \in GssubSet(c.s, c.t, c.u)
